@@ -284,13 +284,13 @@ def correspond(ctx):
   ctx.log('literals: %d encode, %d decode cases' % (len(enc_cases), len(dec_cases)))
   bad = ctx.run_cases('encode', imports,
                       'fun c => match c with (v, tbl, e) => value_eqb (encode_f (oracles_of tbl) %d v) e end' % FUEL,
-                      enc_cases, shard=100)
+                      enc_cases, shard=ctx.n(100, 50), timeout=ctx.n(600, 3000))
   for k in bad[:6]:
     ctx.broken('correspondence:model encode_f differs from objtypes.encode_object',
                'value %s -> %r' % (pv.to_expr(enc_meta[k])[:200], objtypes.encode_object(enc_meta[k])))
   bad = ctx.run_cases('decode', imports,
                       'fun c => match c with (e, tbl, d) => value_eqb (decode_f (oracles_of tbl) %d e) d end' % FUEL,
-                      dec_cases, shard=100)
+                      dec_cases, shard=ctx.n(100, 50), timeout=ctx.n(600, 3000))
   for k in bad[:6]:
     ctx.broken('correspondence:model decode_f differs from objtypes.decode_object',
                'encoded %r -> %s' % (dec_meta[k], pv.to_expr(objtypes.decode_object(dec_meta[k]))[:200]))
@@ -381,7 +381,7 @@ def correspond_bundles(ctx, vals):
       continue
   bad = ctx.run_cases('bundle', ['Grist.Lib.PyFloat', 'Grist.Model.Values'],
                       'fun c => match c with (bd, tbl, out) => value_eqb (to_json_obj (oracles_of tbl) %d bd) out end' % FUEL,
-                      cases, shard=20)
+                      cases, shard=20, timeout=ctx.n(600, 3000))
   for k in bad[:4]:
     ctx.broken('correspondence:model to_json_obj differs from ActionBundle.to_json_obj', repr(meta[k])[:600])
 
